@@ -32,6 +32,8 @@ def show(v):
     if isinstance(v, (int, str)):
         return str(v)
     if isinstance(v, list):
+        if not all(isinstance(x, int) and not isinstance(x, bool) and 0 <= x < 256 for x in v):
+            return "[%s]" % ",".join(show(x) for x in v[:8]) + (".." if len(v) > 8 else "")
         return show_bytes(v) if v else "empty"
     if isinstance(v, dict):
         if "some" in v:
